@@ -293,14 +293,16 @@ pub fn judge(sys: &Sys, mat: &Mat, z: &[Fq], native_rejects: Option<&str>) -> Ve
 }
 
 /// deterministic choice of forging targets: (column, new value) pairs among the witnesses allocated
-/// before the materialised observables
+/// before the materialised observables. Always: every non-boolean witness negated (sign slips are the
+/// characteristic forgery in this library: encodings, square roots and coordinates are all defined up
+/// to a sign that a gadget must pin). Then, up to `max` more: boolean witnesses flipped and non-boolean
+/// ones set to v+1, 0, 1 -- all of them when they fit, a seeded sample otherwise.
 pub fn targets(sys: &Sys, mat: &Mat, seed: u64, max: usize) -> Vec<(usize, Fq)> {
     let lo = sys.ninst;
     let hi = sys.col_of_witness(mat.first_wit);
     if hi <= lo {
         return vec![];
     }
-    let n = hi - lo;
     let mut state = seed ^ 0x9e37_79b9_7f4a_7c15;
     let mut next = move || {
         state = state.wrapping_add(0x9e37_79b9_7f4a_7c15);
@@ -309,26 +311,28 @@ pub fn targets(sys: &Sys, mat: &Mat, seed: u64, max: usize) -> Vec<(usize, Fq)> 
         x = (x ^ (x >> 27)).wrapping_mul(0x94d0_49bb_1331_11eb);
         x ^ (x >> 31)
     };
+    let is_bit = |col: usize| sys.boolean[col] || sys.z[col] == Fq::ZERO || sys.z[col] == Fq::ONE;
     let mut out = Vec::new();
-    let exhaustive = n <= max;
-    for t in 0..max.min(n.max(1) * 2) {
-        let col = if exhaustive { lo + (t % n) } else { lo + (next() % n as u64) as usize };
+    let mut rest: Vec<(usize, Fq)> = Vec::new();
+    for col in lo..hi {
         let cur = sys.z[col];
-        let v = if sys.boolean[col] || cur == Fq::ZERO || cur == Fq::ONE {
-            if exhaustive && t >= n {
-                continue;
-            }
-            Fq::ONE - cur
+        if is_bit(col) {
+            rest.push((col, Fq::ONE - cur));
         } else {
-            match if exhaustive { (t / n) as u64 } else { next() % 4 } {
-                0 => -cur,
-                1 => cur + Fq::ONE,
-                2 => Fq::ZERO,
-                _ => Fq::ONE,
+            if out.len() < 4000 {
+                out.push((col, -cur));
             }
-        };
-        if v != cur {
-            out.push((col, v));
+            rest.push((col, cur + Fq::ONE));
+            rest.push((col, Fq::ZERO));
+            rest.push((col, Fq::ONE));
+        }
+    }
+    if rest.len() <= max {
+        out.extend(rest);
+    } else {
+        for _ in 0..max {
+            let k = (next() % rest.len() as u64) as usize;
+            out.push(rest[k]);
         }
     }
     out
